@@ -543,6 +543,7 @@ class MObj:
     def __init__(self, cls):
         self.cls = cls
         self.attrs = {}
+        self.apres = {}        # attribute name -> guard under which it exists (absent entry = wherever the object exists)
 
     def __repr__(self):
         return '<MObj %s>' % self.cls.__name__
@@ -662,6 +663,7 @@ class VM:
         self.bounds = {}
         self.class_shadow = {}
         self.global_shadow = {}
+        self.global_vals = {}          # (module, name) -> value of module-level names rebound through `global`
 
     def inp(self, name, fork=False):
         v = var(name)
@@ -919,7 +921,9 @@ class VM:
         return c.g
 
     def st_Global(self, s, fr, c):
-        raise Unsupported('global statement (writes to module state are not modelled)')
+        # module-level names rebound by the function: their value lives in vm.global_vals for the whole run (all calls of a harness)
+        fr.global_names = getattr(fr, 'global_names', set()) | set(s.names)
+        return c.g
 
     def st_Nonlocal(self, s, fr, c):
         fr.nonlocals = getattr(fr, 'nonlocals', set()) | set(s.names)
@@ -1128,6 +1132,11 @@ class Ctx:
         if isinstance(v, (MSet, MList)):
             v.fresh = False
         if isinstance(t, ast.Name):
+            if t.id in getattr(self.fr, 'global_names', ()):
+                key = (self.fr.globals.get('__name__'), t.id)
+                old = self.vm.global_vals[key] if key in self.vm.global_vals else self.fr.globals.get(t.id, UNDEF)
+                self.vm.global_vals[key] = merge(self.g, v, old)          # a guarded write to module state
+                return
             self.fr.locals[t.id] = v
         elif isinstance(t, (ast.Tuple, ast.List)):
             stars = [i for i, x in enumerate(t.elts) if isinstance(x, ast.Starred)]
@@ -1186,6 +1195,12 @@ class Ctx:
                     continue
                 if not isinstance(oa, MObj):
                     raise Unsupported('setattr on %r' % (oa,))
+                if t.attr not in oa.attrs:
+                    oa.apres[t.attr] = gg              # the attribute exists only where this assignment ran (getattr default / hasattr look at it)
+                elif t.attr in oa.apres:
+                    oa.apres[t.attr] = b_or(oa.apres[t.attr], gg)
+                    if oa.apres[t.attr] is True:
+                        del oa.apres[t.attr]
                 oa.attrs[t.attr] = merge(gg, v, oa.attrs.get(t.attr, UNDEF))
         elif isinstance(t, ast.Subscript):
             self.setitem(self.ev(t.value), self.ev(t.slice), v)
@@ -1406,6 +1421,10 @@ class Ctx:
 
     def ex_Name(self, e):
         f = self.fr
+        if self.vm.global_vals:
+            key = (f.globals.get('__name__'), e.id)
+            if key in self.vm.global_vals and (e.id in getattr(f, 'global_names', ()) or not self.is_local_name(e.id)):
+                return self.vm.global_vals[key]
         while f is not None:
             if e.id in f.locals:
                 return f.locals[e.id]
@@ -1437,6 +1456,14 @@ class Ctx:
         if hasattr(builtins, e.id):
             return getattr(builtins, e.id)
         raise Unsupported('name %s' % e.id)
+
+    def is_local_name(self, name):
+        f = self.fr
+        while f is not None:
+            if name in f.locals:
+                return True
+            f = f.parent
+        return name in self.fr.closure
 
     def ex_Tuple(self, e):
         return tuple(self.ev(x) for x in e.elts)
@@ -2502,7 +2529,7 @@ def m_iter(ctx, o):
     return iter(o)
 
 
-def m_next(ctx, it):
+def m_next(ctx, it, *default):
     res = UNDEF
     saved = ctx.g
     stop = False
@@ -2537,8 +2564,11 @@ def m_next(ctx, it):
         else:
             raise Unsupported('next on %r' % (ia,))
         if empty is not False:
-            ctx.fr.exc.append((b_and(g, empty), StopIteration(), ctx.fr.locals))
-            stop = b_or(stop, b_and(ga, empty))
+            if default:
+                val = default[0] if empty is True else merge(empty, default[0], val)      # next(it, default): no StopIteration
+            else:
+                ctx.fr.exc.append((b_and(g, empty), StopIteration(), ctx.fr.locals))
+                stop = b_or(stop, b_and(ga, empty))
         res = merge(ga, val, res)
     ctx.g = b_and(saved, b_not(stop))
     return None if res is UNDEF else res
@@ -2589,10 +2619,11 @@ def m_getattr(ctx, o, name, default=_NODEFAULT):
         if isinstance(oa, MObj):
             if name in oa.attrs:
                 v = oa.attrs[name]
-                if v is UNDEF:
+                pres = getattr(oa, 'apres', {}).get(name, True)
+                if v is UNDEF or pres is False:
                     return missing(oa)
-                if isinstance(v, SChoice) and any(va is UNDEF for _, va in v.alts):
-                    return ctx.call_each(v, lambda va: missing(oa) if va is UNDEF else va)
+                if pres is not True:
+                    return ctx.call_each(SChoice([(pres, 1), (b_not(pres), 0)]), lambda k: v if k else missing(oa))
                 return v
             if name == '__class__' or any(name in c.__dict__ for c in oa.cls.__mro__):
                 return ctx.getattr1(oa, name)
@@ -2610,12 +2641,7 @@ def m_hasattr(ctx, o, name):
     def one(oa):
         if isinstance(oa, MObj):
             if name in oa.attrs:
-                v = oa.attrs[name]
-                if v is UNDEF:
-                    return False
-                if isinstance(v, SChoice):
-                    return b_not(b_or(*[ga for ga, va in v.alts if va is UNDEF])) if any(va is UNDEF for _, va in v.alts) else True
-                return True
+                return False if oa.attrs[name] is UNDEF else getattr(oa, 'apres', {}).get(name, True)
             return name == '__class__' or any(name in c.__dict__ for c in oa.cls.__mro__)
         if isinstance(oa, (MSet, MDict, MList)):
             return hasattr({MSet: set, MDict: dict, MList: list}[type(oa)], name)
